@@ -419,12 +419,47 @@ def r_comment_text_by_byte_positions(r, prog):
     r.floor(3)
 
 
+def r_comment_parser_builds_no_error(r, prog):
+    """Nothing the comment parser reaches builds an Error: whatever is wrong with a doc comment (lexer errors and grammar-level parse failures
+    alike) becomes a lint. An Error here also makes the comment parser refuse every later comment of the file."""
+    entry = "slicec::parsers::comments::parser::CommentParser::<'a>::parse_doc_comment"
+    if entry not in prog.fns:
+        raise AnchorMissing(entry)
+    reach = prog.reachable_fns([entry])
+    ERR = 'slicec::diagnostics::errors::Error'
+    bad = [a for a in aggregates(prog, ERR, crates=('slicec',)) if a['fn'].path in reach and not a['fn'].blocks[a['bb']].get('cleanup')
+           and not a['fn'].generated and (a['fn'].span.file or '').startswith('slicec/src/parsers/')]
+    if bad:
+        a = bad[0]
+        r.finding('comment-parser-builds-error:%s:%s' % (a['fn'].name, a['rv']['v']), a['span'], '%s, reachable from the comment parser, builds Error::%s' % (a['fn'].path, a['rv']['v']))
+    else:
+        r.ok('no function of the parsers reachable from CommentParser::parse_doc_comment builds an Error (%d functions)' % len(reach))
+    r.floor(1)
+
+
+def r_link_target_from_lookup(r, prog):
+    """The target recorded for a link is the outcome of the scoped lookup made for this very link, on every path: nothing else (a memo of earlier
+    answers keyed by something coarser than the element and the identifier) can supply it."""
+    rl = _roles(prog)['resolver']
+    look = [c for c in rl.calls() if c.name() == 'find_node_with_scope' and not rl.blocks[c.bb].get('cleanup')]
+    push = [c for c in rl.calls() if c.name() == 'push_back' and 'link_patches' in vexpr(rl, c.args[0]) and not rl.blocks[c.bb].get('cleanup')]
+    other_tables = [c.name() for c in rl.calls() if c.name() in ('get', 'entry', 'contains_key', 'get_or_insert_with') and not rl.blocks[c.bb].get('cleanup')
+                    and 'arg1.' in vexpr(rl, c.args[0]) and 'link_patches' not in vexpr(rl, c.args[0])]
+    if len(look) == 1 and push and all(must_pass(rl, 0, [p.bb], [look[0].bb]) for p in push) and not other_tables:
+        r.ok('every queued link target comes from the lookup made for that link (no other table is consulted)')
+    else:
+        r.finding('link-target-not-from-lookup', rl.span, '%s queues a target without having made the scoped lookup for it on that path, or consults a table of earlier answers (%s)' % (rl.name, sorted(set(other_tables))))
+    r.floor(1)
+
+
 def run(ctx):
     prog = ctx.prog
     ctx.run_rule('C16.1a', 'T6', 'link patcher: compute and apply loops cover the same node kinds = impls of Commentable', r_node_variants_agree, prog)
     ctx.run_rule('C16.1b', 'T6', 'compute and apply visit overview, params, returns, see in the same order', r_traversal_order_agrees, prog)
     ctx.run_rule('C16.1c', 'T3', 'one queue entry pushed per computed link, one popped per applied link', r_one_entry_per_link, prog)
     ctx.run_rule('C16.5d', 'T10', 'comment text is cut out of a line by byte positions (reset per line, advanced by len_utf8)', r_comment_text_by_byte_positions, prog)
+    ctx.run_rule('C16.3b', 'T1', 'nothing reachable from the comment parser builds an Error', r_comment_parser_builds_no_error, prog)
+    ctx.run_rule('C16.2b', 'T2', 'a link\'s target comes from the scoped lookup made for it', r_link_target_from_lookup, prog)
     ctx.run_rule('C16.12', 'T13', 'conditions under which a doc-comment tag that does not fit its element is reported (share of the validators\' precondition ledger)', r_comment_rule_preconditions, prog)
     ctx.run_rule('C16.2', 'T10', 'links resolve from the documented element outwards', r_link_scope, prog)
     ctx.run_rule('C16.3', 'T1', 'comment defects are lints: no Error is built in the comment pipeline', r_warnings_never_errors, prog)
